@@ -127,10 +127,20 @@ def run_python(d, workdir):
             for j in range(n):
                 S[k, i, j] = complex(*M[i][j])
     params = {name: np.array([pt[c] for pt in d["pts"]]) for c, name in enumerate(d["params"])}
-    mod = lk.model.SolvedModel(pin_dic=pin_dic, param_dic=params, Smatrix=S)
     fn = os.path.join(workdir, "m.csvy")
     emap = d["emap"] or None
     units = {(d["emap"] or {}).get(p, p): "u" for p in d["params"]}
+    if d.get("late_rename"):
+        # the result is exported once under provisional port names, re-labelled (new base names), and exported again:
+        # the second file must describe the pins the model has NOW
+        bases = sorted({b for b, _ in d["pins"]})
+        prov = {b: f"zz{k}" for k, b in enumerate(bases)}
+        old = {Pin(prov[b], m): i for (b, m), i in zip(d["pins"], d["idx"])}
+        mod = lk.model.SolvedModel(pin_dic=old, param_dic=params, Smatrix=S)
+        mod.export_InPulse(filename=os.path.join(workdir, "first.csvy"), parameter_name_mapping=emap, units=units)
+        mod.pin_mapping({Pin(prov[b], m): Pin(b, m) for b, m in d["pins"]})
+    else:
+        mod = lk.model.SolvedModel(pin_dic=pin_dic, param_dic=params, Smatrix=S)
     mod.export_InPulse(filename=fn, parameter_name_mapping=emap, units=units)
     imap = {v: k for k, v in (d["emap"] or {}).items()} or None
     t = lk.Model_from_InPulse(fn, parameter_name_mapping=imap, mode_mapping=d["mm"])
@@ -176,6 +186,7 @@ class RoundTrip(Stream):
                 continue
             if self.with_mm is False:
                 d["mm"] = None
+            d["late_rename"] = rng.random() < 0.3
             out.append(d)
         return out
 
